@@ -207,13 +207,32 @@ Proof.
     split; [subst m2; lia|lia].
 Qed.
 
-Theorem interval_add_quarters : forall v t,
-  - 715827882 <= v <= 715827882 ->
-  interval_Add IntervalQuarter v t = interval_Add IntervalMonth (3 * v) t.
+(* a quarter as the code has it: FOUR months (known finding) *)
+Theorem interval_add_quarters_impl : forall v t,
+  - 536870912 <= v <= 536870912 ->
+  interval_Add IntervalQuarter v t = interval_Add IntervalMonth (4 * v) t.
 Proof.
   intros v t Hv.
-  change (interval_Add IntervalQuarter v t) with (Some (t_AddDate t 0 (i64 (v * 3)) 0)).
-  rewrite i64_id by (unfold in_i64z, two63; lia). replace (v * 3) with (3 * v) by lia. reflexivity.
+  change (interval_Add IntervalQuarter v t) with (Some (t_AddDate t 0 (i64 (v * 4)) 0)).
+  rewrite i64_id by (unfold in_i64z, two63; lia). replace (v * 4) with (4 * v) by lia. reflexivity.
+Qed.
+
+(* the intended statement "a quarter is three months" is false of the code: 2020-01-15 10:00 UTC plus one
+   quarter is 2020-05-15 10:00, not 2020-04-15 10:00 *)
+Theorem interval_add_quarters_refuted :
+  exists v t, wf_time t /\ sane t /\ - 715827882 <= v <= 715827882 /\
+    interval_Add IntervalQuarter v t = Some (mkT 1589536800 0 0) /\
+    interval_Add IntervalMonth (3 * v) t = Some (mkT 1586944800 0 0) /\
+    t_Date t = (2020, 1, 15) /\ t_Date (mkT 1589536800 0 0) = (2020, 5, 15) /\
+    t_Date (mkT 1586944800 0 0) = (2020, 4, 15) /\
+    interval_Add IntervalQuarter v t <> interval_Add IntervalMonth (3 * v) t.
+Proof.
+  exists 1, (mkT 1579082400 0 0).
+  split; [unfold wf_time, ns_per_s; cbn [nsec]; lia|].
+  split; [unfold sane, local_sec, two44; cbn [unix zoff]; lia|].
+  split; [lia|].
+  repeat (split; [vm_compute; reflexivity|]).
+  vm_compute. intros H. discriminate H.
 Qed.
 
 Theorem interval_add_years : forall v t,
